@@ -395,3 +395,22 @@ VARIANTS += [
     V("C15", "benign: excluded directories as a set intersection", GA, "if not is_test_run and (\"test\" in file_path.parts or \"tests\" in file_path.parts or \"docs\" in file_path.parts):", "if not is_test_run and {\"test\", \"tests\", \"docs\"} & set(file_path.parts):", None),
     V("C05", "benign: nullable length test flipped", GEN, "if len(types) == 2 and none_type_name in types and has_named_type:", "if 2 == len(types) and none_type_name in types and has_named_type:", None),
 ]
+VARIANTS += [
+    # benign rewrites found by a rewrite probe against all properties (each one made a recogniser alarm before it was widened)
+    V("C11", "benign: superclass name via rsplit", GEN, 'superclass_name = superclass.split(".")[-1]', 'superclass_name = superclass.rsplit(".", 1)[-1]', None),
+    V("C17", "benign: superclass name via rsplit", GEN, 'superclass_name = superclass.split(".")[-1]', 'superclass_name = superclass.rsplit(".", 1)[-1]', None),
+    V("C20", "benign: empty pending test via len", GEN, '        if not self._current_todo_msgs:\n            return ""', '        if len(self._current_todo_msgs) == 0:\n            return ""', None),
+    V("C14", "benign: NamedType eq as tuple compare", TY, 'return self.name == other.name and self.qname == other.qname', 'return (self.name, self.qname) == (other.name, other.qname)', None),
+    V("C19", "benign: NamedType eq as tuple compare", TY, 'return self.name == other.name and self.qname == other.qname', 'return (self.name, self.qname) == (other.name, other.qname)', None),
+    V("C12", "benign: API file written with write_text", API, '        with path.open("w", encoding="utf-8") as f:\n            json.dump(self.to_dict(), f, indent=2)', '        path.write_text(json.dumps(self.to_dict(), indent=2), encoding="utf-8")', None),
+    V("C10", "benign: API file written with write_text", API, '        with path.open("w", encoding="utf-8") as f:\n            json.dump(self.to_dict(), f, indent=2)', '        path.write_text(json.dumps(self.to_dict(), indent=2), encoding="utf-8")', None),
+    V("C01", "benign: API file written with write_text", API, '        with path.open("w", encoding="utf-8") as f:\n            json.dump(self.to_dict(), f, indent=2)', '        path.write_text(json.dumps(self.to_dict(), indent=2), encoding="utf-8")', None),
+    V("C08", "benign: rglob instead of a glob pattern", GA, 'for file_path in root.glob(pattern="./**/*.py"):', 'for file_path in root.rglob("*.py"):', None),
+    V("C15", "benign: rglob instead of a glob pattern", GA, 'for file_path in root.glob(pattern="./**/*.py"):', 'for file_path in root.rglob("*.py"):', None),
+    V("C08", "benign: re-exporters sorted with sorted()", VIS, '        reexported_by.sort(key=lambda x: x.id)\n\n        # Get constructor docstring', '        reexported_by = sorted(reexported_by, key=lambda x: x.id)\n\n        # Get constructor docstring', None),
+    V("C05", "benign: None / Literal branches swapped", VIS, '        elif isinstance(mypy_type, mp_types.NoneType):\n            return sds_types.NamedType(name="None", qname="builtins.None")\n        elif isinstance(mypy_type, mp_types.LiteralType):\n            return sds_types.LiteralType(literals=[mypy_type.value])',
+      '        elif isinstance(mypy_type, mp_types.LiteralType):\n            return sds_types.LiteralType(literals=[mypy_type.value])\n        elif isinstance(mypy_type, mp_types.NoneType):\n            return sds_types.NamedType(name="None", qname="builtins.None")', None),
+    V("C02", "benign: module header built from two parts", GEN, '        module_header = f"{module_name_info}package {_replace_if_safeds_keyword_in_path(package_info_camel_case)}\\n"\n\n        # Create docstring', '        package_line = f"package {_replace_if_safeds_keyword_in_path(package_info_camel_case)}\\n"\n        module_header = module_name_info + package_line\n\n        # Create docstring', None),
+    V("C03", "benign: leave_funcdef branches reordered", VIS, '            if isinstance(parent, Module):\n                parent.add_function(function)\n            elif isinstance(parent, Class):\n                if function.name == "__init__":\n                    parent.add_constructor(function)\n                else:\n                    parent.add_method(function)',
+      '            if isinstance(parent, Class):\n                if function.name == "__init__":\n                    parent.add_constructor(function)\n                else:\n                    parent.add_method(function)\n            elif isinstance(parent, Module):\n                parent.add_function(function)', None),
+]
